@@ -9,6 +9,11 @@ CLAIMED = {
    design_ref="DESIGN.md 5.1",
    note="Trusts: the patched copy of rand 0.8.8 (only ThreadRng's word source is replaced; shuffle/gen_range are rand's real code), the harness's identity-carrying workload (row id in column 0, re-derivable from every column and the target). Real: smartcore model_selection + DenseMatrix/Vec take. Stub: ThreadRng entropy, estimator/scorer closures (recording parties).",
    technique="deterministic simulation: seeded PRNG owns every thread_rng draw (forced/extreme/random permutations), recorded-history leakage oracle, estimator-failure injection, replayable tape"),
+ "C12": dict(
+   text="Seeded search over k-means++ initialisations: the simulator serves every thread_rng word behind the first-centroid index and every D^2 cut-off (PRNG words, extreme words such as cut-off 0.0 / 1-2^-53, forced first row), so each run is one exactly replayable initialisation; a cfg-guarded in-run probe hands every tree-accelerated assignment step (the centroids actually used, sums, counts, membership, distortion) to an exhaustive-search reference model while the fit proceeds, and the fitted model (k/size/centroids/_y via serde) and predict are judged afterwards. The assignment step is additionally driven directly with coincident / far-outside / mid-point centroid sets (schedule-free, reported separately). A process-killing run is contained by a supervising process and reported with its replay file.",
+   design_ref="DESIGN.md 5.3",
+   note="Trusts: patched rand 0.8.8 (ThreadRng word source only), the add-only cfg(smartcore_verif) probe and bbd_clustering wrapper in /repo/src/verif.rs, f64 exhaustive search as reference with tolerances >=100x the measured worst case (reported in evidence). Real: KMeans fit/predict/kmeans_plus_plus, BBDTree. Stub: ThreadRng entropy.",
+   technique="deterministic simulation: seeded PRNG/extreme/forced words behind k-means++ draws, in-run invariant at every Lloyd step vs exhaustive-search reference model, crash containment, replayable tape"),
 }
 
 NOT_APPLICABLE = {
@@ -32,7 +37,6 @@ NOT_APPLICABLE = {
 PENDING = {
  "C06": "claimed in DESIGN.md 5.4; simulation check under construction in this round (will move to checks when built)",
  "C10": "claimed in DESIGN.md 5.2; simulation check under construction in this round (will move to checks when built)",
- "C12": "claimed in DESIGN.md 5.3; simulation check under construction in this round (will move to checks when built)",
 }
 
 def main():
